@@ -1,7 +1,7 @@
 (* Property theorems of the Pool cluster (C16..C21). Nothing but statements, [exact], and
    Print Assumptions. *)
 From FC Require Import Pool.Model Pool.ProofsBase Pool.ProofsCore Pool.ProofsRemoval Pool.ProofsOps
-  Pool.ProofsInsert Pool.ProofsCheck.
+  Pool.ProofsInsert Pool.ProofsCheck Pool.Proofs18 Pool.Proofs19 Pool.Proofs20.
 Open Scope N_scope.
 
 (* ------------------------------------------------------------------ *)
@@ -42,3 +42,150 @@ Print Assumptions pool_invb_no_conflict.
 Theorem no_conflictb_sound : forall l, no_conflictb l = true <-> ForallOrdPairs Disjoint_keys l.
 Proof. exact no_conflictb_iff. Qed.
 Print Assumptions no_conflictb_sound.
+
+(* ------------------------------------------------------------------ *)
+(* C17 (partial: admission-level guarantees; the history-level statements - parents before
+   children in an extraction, cascade of removals, chain bound and diamond-freeness of every
+   reachable graph - are part of [pool_invb]/[step17], evaluated on every implementation and model
+   trace, and are NOT proved as an inductive invariant here).
+   can_store_transaction accepts a transaction only if its set of pool ancestors [all] was walked
+   without meeting any ancestor twice (no diamond: [NoDup all], closed under parents), has fewer
+   than max_txs_chain_count elements, and every ancestor has room for one more dependent and is
+   not a blob. *)
+Theorem can_store_bounds_partial : forall g maxc t direct all, can_store g maxc t = Good (direct, all) ->
+  NoDup all /\ (all = [] \/ lenN all < maxc) /\ (forall x, In x direct -> In x all) /\
+  (forall x n, In x all -> get_node g x = Some n ->
+               n_cnt n < maxc /\ is_blob (n_tx n) = false /\ forall y, In y (parents g x) -> In y all).
+Proof. exact can_store_bounds_all. Qed.
+Print Assumptions can_store_bounds_partial.
+
+(* a subtree removal removes its root, only stored transactions, each once; the stored set
+   shrinks by exactly the removed ids *)
+Theorem remove_subtree_exact : forall g root g' rm pan, remove_subtree g root = (g', rm, pan) ->
+  Rem g g' rm /\ ~ In root (tids (txs g')).
+Proof. exact remove_subtree_rem. Qed.
+Print Assumptions remove_subtree_exact.
+
+(* ------------------------------------------------------------------ *)
+(* C18. For EVERY pool state satisfying the core invariant and every constraint value, the
+   transactions handed out: total max_gas, total size and count within the limits, each pays at
+   least the minimal gas price and touches no excluded contract, pairwise distinct and
+   conflict-free, were stored in the pool and none of them remains in it. *)
+Theorem extraction_respects : forall p cs, CoreInv p ->
+  let res := map n_tx (snd (extract_transactions_for_block p cs)) in
+  sumN (map t_gas res) <= k_max_gas cs /\ sumN (map t_size res) <= k_max_size cs /\
+  lenN res <= k_max_txs cs /\ Forall (tx_allowed cs) res /\
+  NoDup (tids res) /\ NoConflict res /\
+  (forall t, In t res -> In t (txs (p_g p)) /\
+             ~ In (t_id t) (tids (txs (p_g (fst (extract_transactions_for_block p cs)))))).
+Proof. exact extraction_all. Qed.
+Print Assumptions extraction_respects.
+
+(* the limits hold for any graph / executable list whatsoever (no invariant needed) *)
+Theorem gather_best_txs_respects : forall cs g ex,
+  let res := map n_tx (gs_result (gather_best_txs cs g ex)) in
+  sumN (map t_gas res) <= k_max_gas cs /\ sumN (map t_size res) <= k_max_size cs /\
+  lenN res <= k_max_txs cs /\ Forall (tx_allowed cs) res.
+Proof. exact gather_respects. Qed.
+Print Assumptions gather_best_txs_respects.
+
+(* within one pass over a sorted executable list the selected keys are sorted, i.e. handed out in
+   non-increasing (tip+1)/max_gas order (sortedness of the list itself is part of pool_invb) *)
+Theorem ratio_order_partial : forall cs keys ps, sorted_keys keys = true -> ps_clean ps = [] ->
+  sorted_keys (ps_clean (pass cs keys ps)) = true.
+Proof. exact pass_ratio_order. Qed.
+Print Assumptions ratio_order_partial.
+
+Theorem sorted_keys_ratio : forall a b, key_before a b = true ->
+  ratio_ltb (k_num a) (k_den a) (k_num b) (k_den b) = false.
+Proof. exact key_before_ratio. Qed.
+Print Assumptions sorted_keys_ratio.
+
+(* ------------------------------------------------------------------ *)
+(* C19. An accepted insertion implies: max_gas > 0, id not pooled, not recorded as spent, not
+   in the database, blob not taken, every input passed validate_inputs (pool-created coin: output
+   matches; otherwise, with utxo validation: not in the spent cache and present with equal fields
+   in the database or in the extracted outputs; message: not spent, known, equal; contract:
+   known), and a strictly better tip/gas ratio than the cumulative ratio of every collided
+   transaction; a rejected insertion leaves the pool unchanged. *)
+Theorem insert_rejects : forall p d t p', pool_insert p d t = (p', IOk) ->
+  Admissible p d t /\ exists ci, can_insert_transaction p d t = inl ci /\ p' = do_insert p t ci.
+Proof. exact insert_accept_facts. Qed.
+Print Assumptions insert_rejects.
+
+Theorem insert_rejection_is_noop : forall p d t p' r, pool_insert p d t = (p', r) -> r <> IOk -> p' = p.
+Proof. exact insert_error_unchanged. Qed.
+Print Assumptions insert_rejection_is_noop.
+
+Theorem collision_rule : forall p d t p', CoreInv p -> pool_insert p d t = (p', IOk) ->
+  In t (txs (p_g p')) /\
+  forall colls, find_collisions (p_cm p) t = Good colls ->
+    forall c, In c colls -> c <> t_id t -> ~ In c (tids (txs (p_g p'))).
+Proof. exact insert_evicts_collisions. Qed.
+Print Assumptions collision_rule.
+
+(* "handed out and not yet settled": REFUTED without a bound on the LRU (finding P1):
+   max_txs = 1 (capacity 2), extraction of a two-input transaction evicts its first coin from the
+   cache, a second transaction spending that coin is accepted. *)
+Theorem handed_out_inputs_rejected_refuted : exists cfg d h ops,
+  check19 [] (model_trace (worker_new cfg d h) ops) = false.
+Proof. exists p1_cfg, p1_db, 0, p1_ops. exact (proj1 p1_witness). Qed.
+Print Assumptions handed_out_inputs_rejected_refuted.
+
+(* ... and what holds while the LRU does not overflow (lru_not_overflowed: room for the keys):
+   an extraction records the id and every coin/message input of the handed-out transaction, a
+   put into a non-full cache evicts nothing, and [insert_rejects] rejects every transaction whose
+   id or input is in the cache.  (The assembly of these three facts into an invariant over all
+   histories is not proved.) *)
+Theorem handed_out_inputs_recorded_partial : forall s id ins k,
+  lenN (s_lru s) + lenN (input_keys ins) + 1 <= s_cap s ->
+  In k (KTx id :: input_keys ins) -> In k (s_lru (maybe_spend_inputs s id ins)).
+Proof. exact maybe_spend_records. Qed.
+Print Assumptions handed_out_inputs_recorded_partial.
+
+Theorem lru_put_no_eviction_partial : forall cap k k' l, lenN l < cap -> In k l -> In k (lru_put cap k' l).
+Proof. exact lru_put_keeps. Qed.
+Print Assumptions lru_put_no_eviction_partial.
+
+(* ------------------------------------------------------------------ *)
+(* C20. *)
+Theorem late_preconf_noop : forall w id kind h outs, kind <> PSqueezed -> h <= w_height w ->
+  process_preconfirmed_transaction w id kind h outs = w.
+Proof. exact late_preconf_noop_all. Qed.
+Print Assumptions late_preconf_noop.
+
+Theorem block_included_leave : forall w h ids id, CoreInv (w_pool w) -> In id ids ->
+  ~ In id (tids (txs (p_g (w_pool (process_block w h ids))))).
+Proof. exact block_included_leave_all. Qed.
+Print Assumptions block_included_leave.
+
+(* a rolled back preconfirmation: outputs withdrawn, not recorded as spent (may be resubmitted),
+   only removals happen to the pool *)
+Theorem rollback_clears : forall p id,
+  let p' := rollback_preconfirmed_transaction p id in
+  amem N.eqb id (e_by_tx (p_eo p')) = false /\ amem N.eqb id (e_coins (p_eo p')) = false /\
+  lru_mem (KTx id) (s_lru (p_spent p')) = false /\ amem N.eqb id (s_tentative (p_spent p')) = false.
+Proof. exact rollback_clears_all. Qed.
+Print Assumptions rollback_clears.
+
+Theorem block_preserves_core : forall w h ids, CoreInv (w_pool w) -> CoreInv (w_pool (process_block w h ids)).
+Proof. exact process_block_inv. Qed.
+Print Assumptions block_preserves_core.
+
+(* ------------------------------------------------------------------ *)
+(* C21 (partial: proved for the removal primitive and for remove_transactions_and_dependents, i.e.
+   expiry and skipped transactions; for the other paths exactly-once reporting is checked by
+   [step21] on every trace). *)
+Theorem expiry_reports_exactly : forall ids p reason,
+  exists removed,
+    p_log (remove_transactions_and_dependents p ids reason) = p_log p ++ squeezed_event reason removed /\
+    Rem (p_g p) (p_g (remove_transactions_and_dependents p ids reason)) removed.
+Proof. exact rtd_reports. Qed.
+Print Assumptions expiry_reports_exactly.
+
+Theorem removed_exactly_once : forall g g' rm, Rem g g' rm ->
+  NoDup (map n_id rm) /\
+  forall x, In x (txs g) -> (In x (txs g') /\ ~ In (t_id x) (map n_id rm)) \/
+                            (~ In x (txs g') /\ In (t_id x) (map n_id rm)).
+Proof. exact Rem_exactly_once. Qed.
+Print Assumptions removed_exactly_once.
